@@ -559,6 +559,7 @@ class ContainerValue:
             "list_value": ListValue,
             "map_or_list_value": MapOrListValue,
         }
+        spec = dict(spec)  # the keys are popped below; leave the caller's mapping alone
         container_type = spec.pop("type", "map_or_list_value")
         try:
             cls = CLS_LOOKUP[container_type]
